@@ -972,6 +972,21 @@ def sweep_configs(tier):
                         ops.append({"op": "call", "k": "k1", "model": model, "fn": fn, "pars": key,
                                     "cutoff": 0.0, "mono": False})
             out.append({"kind": "history", "ops": ops, "recheck_seed": 1, "family": "ordered_pairs"})
+    # several calculators with different data on one model, interleaved (resolution
+    # and transform objects built for one data set must not leak into another)
+    for model, pk in (("sphere", ["def", "pd"]), ("cylinder", ["def", "pd2"])):
+        kinds = [k for k in DATA_KINDS if not (k == "2d" and model == "cylinder" and False)]
+        ops = [{"op": "load", "id": "m1", "model": model, "dtype": "double"}]
+        ids = []
+        for n_, kind in enumerate(kinds + list(reversed(kinds))):
+            did = "d%d" % (n_ + 1)
+            ids.append(did)
+            ops.append({"op": "direct", "id": did, "m": "m1", "data": kind, "model": model, "cutoff": 1e-5})
+            for key in pk:
+                ops.append({"op": "direct_call", "d": did, "model": model, "pars": key})
+        for did in ids:
+            ops.append({"op": "direct_call", "d": did, "model": model, "pars": pk[0]})
+        out.append({"kind": "history", "ops": ops, "recheck_seed": 3, "family": "calculators_over_data_kinds"})
     # sibling instances: clone, change one of the two, evaluate the other (every
     # configuration operation of the pool, both directions)
     for model in ("sphere", "cylinder", "pyplug", "allpd", "sphere@hayter_msa", "core_multi_shell"):
